@@ -845,6 +845,47 @@ def _preflight(run) -> None:
         raise Inconclusive('KeyValues2 type keywords changed; the generator restriction on element type names is stale')
 
 
+def name_attr_case(run) -> None:
+    """The element name assigned through the attribute interface in any letter case (elem['Name'] = ...): the wire has
+    one slot for it, so its casing is not compared - but the name must arrive and NO OTHER attribute may be lost."""
+    import io as _io
+    from srctools.dmx import Element
+    for spelling in ('Name', 'NAME', 'nAmE', 'name'):
+        for n_attr in (1, 2, 5):
+            e = Element('initial', 'DmeCase')
+            e[spelling] = 'via-attribute'
+            for k in range(n_attr):
+                e[f'attr{k}'] = [k, float(k) + 0.5, f's{k}', k % 2 == 0][k % 4]
+            want = {f'attr{k}': e[f'attr{k}'].type.name for k in range(n_attr)}
+            outs = []
+            jobs = [(f'binary v{v}', lambda b, v=v: e.export_binary(b, version=v, fmt_name='t', fmt_ver=1, unicode='silent')) for v in (1, 2, 3, 4, 5)]
+            jobs += [(f'kv2 flat={flat}', lambda b, flat=flat: e.export_kv2(b, 't', 1, flat=flat, unicode='silent')) for flat in (False, True)]
+            for label, fn in jobs:
+                b = _io.BytesIO()
+                try:
+                    fn(b)
+                except Exception as exc:
+                    run.violation(f'{label}: exporting an element named through elem[{spelling!r}] raised {exc!r}',
+                                  case={'engine': 'name-attr-case', 'spelling': spelling, 'n_attr': n_attr, 'encoding': label},
+                                  engine='name-attr-case', key='name-attr-case-export-raises')
+                    continue
+                outs.append((label, b.getvalue()))
+            for label, data in outs:
+                run.count('name_attr_case_roundtrips')
+                case = {'engine': 'name-attr-case', 'spelling': spelling, 'n_attr': n_attr, 'encoding': label}
+                try:
+                    r, _, _ = Element.parse(_io.BytesIO(data), unicode=True)
+                except Exception as exc:
+                    run.violation(f'{label}: element named through elem[{spelling!r}] does not re-parse: {exc!r}', case=case,
+                                  engine='name-attr-case', key='name-attr-case-unparseable')
+                    continue
+                got = {k: a.type.name for k, a in r.items() if k.casefold() != 'name'}
+                if r.name != 'via-attribute' or got != want:
+                    run.violation(f'{label}: element named through elem[{spelling!r}] re-reads as name={r.name!r} attributes={sorted(got)} (wanted {sorted(want)})',
+                                  case=case, engine='name-attr-case', key='name-attr-case-loses-attribute')
+            run.case(['name-attr-case', spelling, n_attr], True)
+
+
 def main(run, shard=(0, 1)) -> None:
     thorough = run.tier == 'thorough'
     _preflight(run)
@@ -872,6 +913,8 @@ def main(run, shard=(0, 1)) -> None:
     for j, tree in enumerate(FIXED_KV):
         if mine(j, shard):
             check_kv(run, sub_rng(run.seed, 'kv1-fixed', j), tree, 'kv1-fixed', {'engine': 'kv1-fixed', 'index': j})
+    if shard[0] == 0:
+        name_attr_case(run)
     probe.report(run)
     probe.check_reached(run)
     run.require('binary_parses', 'kv2_parses', 'independent_decodes_agree', 'to_kv1_calls', 'to_kv1_after_wire',
